@@ -1,4 +1,5 @@
 import Poupool.Proofs.ActorLib
+import Poupool.Model.Winter
 /-!
 # C17  Wintering: outside the stir phases both pumps are off (periods/durations: C08 + timed correspondence)
 -/
@@ -20,5 +21,34 @@ theorem swim_pump_only_in_stir : ∀ s, Reach swimSafetyDesc s → swimWinterOK 
   invariant_of_closed _ _ _ Cert.swimSafety_closed (by decide +kernel)
 
 example : (statesOf filtrationSafetyReach).any (fun s => s.leaf == Filtration.leaf_wintering_stir) = true := by decide +kernel
+
+/-! ## the stir decision (Model/Winter.lean, both pumps use the same shape with their own period/threshold) -/
+open Poupool.Winter
+
+/-- once the waiting phase has lasted longer than the period, a poll that sees the temperature at or below the threshold,
+    or unknown, starts the stir; polls come every 2 min (C08.filtration_poll_periods / other_timeouts), hence the gap
+    between two stirs is at most period + 2 min (+ delivery latency) while it stays cold -/
+theorem stirs_when_cold_or_unknown (tis period thr : Int) (temp : Option Int) (hp : period < tis)
+    (hc : temp = none ∨ ∃ t, temp = some t ∧ t ≤ thr) : poll tis period temp thr = .stir := by
+  unfold poll
+  rw [if_pos hp]
+  rcases hc with h | ⟨t, h, ht⟩ <;> subst h <;> simp [*]
+
+/-- no stir before the period has elapsed, and none when the temperature is known to be above the threshold -/
+theorem no_early_or_warm_stir (tis period thr : Int) (temp : Option Int) :
+    poll tis period temp thr = .stir → period < tis ∧ (temp = none ∨ ∃ t, temp = some t ∧ t ≤ thr) := by
+  unfold poll
+  split
+  · rename_i hp
+    cases temp with
+    | none => intro _; exact ⟨hp, Or.inl rfl⟩
+    | some t =>
+        simp only
+        split
+        · rename_i ht; intro _; exact ⟨hp, Or.inr ⟨t, rfl, ht⟩⟩
+        · intro h; simp at h
+  · intro h; simp at h
+
+example : poll 10801000000 10800000000 none 5000 = .stir := by decide
 
 end Poupool.C17
